@@ -49,7 +49,8 @@ Inductive tail_missing (tbl : table) : scope -> list name -> name -> Prop :=
 | tm_here : forall st n ns, lookup n (sc_ents st) = None -> tail_missing tbl st (n :: ns) n
 | tm_later : forall st n e ns x, step tbl st n e -> tail_missing tbl e ns x -> tail_missing tbl st (n :: ns) x.
 
-(* the reference rs designates the definition with canonical name cn: its head
+(* the reference rs designates the definition with canonical name cn (a type, field, value or
+   parameter: a module by itself is not an object a reference can stand for): its head
    has exactly one visible definition, and the dotted name leads from there to cn *)
 Definition designates (tbl : table) (mods : list module) (rs : refsite) (cn : cname) : Prop :=
   exists n l rest vs s st tgt,
@@ -59,7 +60,8 @@ Definition designates (tbl : table) (mods : list module) (rs : refsite) (cn : cn
     (forall s' e', visible tbl (current_scope (rs_site rs)) vs n s' e' -> s' = s) /\
     lookup_scope tbl s = Some st /\
     tail_rel tbl st (n :: map fst rest) tgt /\
-    cn = sc_cn tgt.
+    cn = sc_cn tgt /\
+    cn_path cn <> [].          (* an object, not an imported module named by itself *)
 
 (* ---- definitions of an IR and their canonical names ---- *)
 
